@@ -91,12 +91,15 @@ class MapFiller(Visitor):
         return sexpr
 
     def visit_GateStatement(self, gate):
-        sexpr = [
-            "gate",
-            gate.name,
-            *(self.visit_argument(gate, param) for param in gate.parameters.values()),
+        arguments = [
+            self.visit_argument(gate, param) for param in gate.parameters.values()
         ]
-        return sexpr
+        if isinstance(gate.gate_def, Macro):
+            # Rebuilt by name, so that the call is linked to the filled macro
+            return ["gate", gate.name, *arguments]
+        # Any other statement keeps its definition, which the circuit need
+        # not know by name (e.g. the bounding gates of an expanded subcircuit)
+        return gate.gate_def(*arguments)
 
     def visit_argument(self, gate, param):
         """A whole register alias handed to a macro stays as it is: which
